@@ -77,7 +77,7 @@ func c09Reset(e *Env) { resetObligations(e, "C09.reset", nil) }
 // particular reset (C19: the per-request trace statistics).
 func resetObligations(e *Env, rule string, keep func(tg resetTarget, field string) bool) {
 	w, r := e.W, e.R
-	r.Explainf(rule+": for each (type, reset method) of the property's list, go/ssa must-write analysis: a field counts as reset when on every non-panicking path of the method (following callees that receive the same object, and edges on which an explicit test shows the field already nil/empty are not followed) it is stored to, or its address / loaded value is handed to a reset-like callee, or the whole struct is overwritten. Obligation: fields(T) minus reset fields ⊆ reviewed exemption table (one reason per field).")
+	r.Explainf(rule + ": for each (type, reset method) of the property's list, go/ssa must-write analysis: a field counts as reset when on every non-panicking path of the method (following callees that receive the same object, and edges on which an explicit test shows the field already nil/empty are not followed) it is stored to, or its address / loaded value is handed to a reset-like callee, or the whole struct is overwritten. Obligation: fields(T) minus reset fields ⊆ reviewed exemption table (one reason per field).")
 	fc := newFieldCov(w)
 	n := 0
 	nWant := 0
